@@ -76,11 +76,12 @@ class Ref:
 
 
 class Cell:
-    __slots__ = ('v', 'name')
+    __slots__ = ('v', 'name', 'dropped')
 
     def __init__(self, v=None, name=''):
         self.v = v
         self.name = name
+        self.dropped = False
 
     def get(self):
         return self.v
